@@ -419,7 +419,10 @@ def check_case(case):
 
         # ------------------------------------------------ BAF per range
         if case["ranges"] and len(hets) and "alt_freq" in hets:
-            rg = GenomicArray(pd.DataFrame([tuple(x) for x in case["ranges"]], columns=["chromosome", "start", "end"]))
+            from vk import gen
+
+            rg = GenomicArray(gen.relabel(pd.DataFrame([tuple(x) for x in case["ranges"]], columns=["chromosome", "start", "end"]),
+                                          gen.spec_for(case, "ranges")))
             hrows = [(r.chromosome, int(r.start), int(r.end), float(r.alt_freq),
                       float(r.n_alt_freq) if "n_alt_freq" in hets else None,
                       float(r.n_zygosity if "n_zygosity" in hets else r.zygosity)) for r in hets.data.itertuples(index=False)]
@@ -448,6 +451,7 @@ def check_case(case):
                 seg = CopyNumArray(pd.DataFrame({"chromosome": [x[0] for x in case["ranges"]], "start": [x[1] for x in case["ranges"]],
                                                  "end": [x[2] for x in case["ranges"]], "gene": "-", "log2": 0.0, "probes": 10, "weight": 1.0}))
                 seg.sort()
+                gen.relabel(seg.data, gen.spec_for(case, "seg"))  # a filtered / sliced segment table keeps its row labels
                 base = hets.baf_by_ranges(seg)
                 res = call.do_call(seg, hets, method="none", purity=case["purity"])
                 for i in range(len(seg)):
